@@ -25,7 +25,8 @@ Check (C07_names_true : forall inp start ps file s e kids,
   kids = [] /\
   name_at (skipn (N.to_nat s) inp) (iname (to_ident inp file p)) = true /\
   (no_lone_cr inp = true ->
-   ipos (to_ident inp file p) = mkPos (fst (spec_line_col inp s)) (snd (spec_line_col inp s)) file false)).
+   ipos (to_ident inp file p) = mkPos (fst (spec_line_col inp s)) (snd (spec_line_col inp s)) file false
+   /\ ck_ident inp file (to_ident inp file p) = true)).
 Check (C07_keywords_true : forall inp start ps file r l s e kids,
   parse_pairs start inp = Ok ps ->
   in_forest (Pair r s e kids) ps ->
@@ -35,7 +36,16 @@ Check (C07_keywords_true : forall inp start ps file r l s e kids,
   kw_name (to_keyword inp file p) = l /\
   (is_name l = true -> name_at (skipn (N.to_nat s) inp) l = true) /\
   (no_lone_cr inp = true ->
-   kw_pos (to_keyword inp file p) = mkPos (fst (spec_line_col inp s)) (snd (spec_line_col inp s)) file false)).
+   kw_pos (to_keyword inp file p) = mkPos (fst (spec_line_col inp s)) (snd (spec_line_col inp s)) file false
+   /\ (is_name l = true -> ck_kw inp file (kw_pos (to_keyword inp file p)) l = true))).
+Check (C07_pair_spans_wf : forall inp start ps,
+  parse_pairs start inp = Ok ps -> exists hi, wf_forest 0 hi ps /\ (N.to_nat hi <= length inp)%nat).
+Check (C07_pair_text_at_position : forall inp start ps (p : pair rule) file,
+  parse_pairs start inp = Ok ps ->
+  in_forest p ps ->
+  no_lone_cr inp = true ->
+  not_at_terminator (skipn (N.to_nat (pair_start p)) inp) ->
+  at_pos inp file (to_pos inp file p) (fun t => punct_at t (as_str inp p)) = true).
 Print Assumptions C07_positions_true.
 Print Assumptions C07_lone_cr_refuted.
 Print Assumptions C07_block_string_refuted.
@@ -45,3 +55,5 @@ Print Assumptions C07_union_without_members_refuted.
 Print Assumptions C07_pairs_replayable.
 Print Assumptions C07_names_true.
 Print Assumptions C07_keywords_true.
+Print Assumptions C07_pair_spans_wf.
+Print Assumptions C07_pair_text_at_position.
